@@ -53,7 +53,7 @@ JOPTS = "-Xss256m"     # the reference tokenizer recurses once per octet token
 
 QUICK = [
     # name, constants, max cuts per exhaustive subset, random subsets per stream
-    ("max40-3cmds", dict(MX=40, Depth=3, Wide="TRUE", Big="FALSE", Rand=60, RandLen=5, RunLens=RUNS), 1, 4),
+    ("max40-3cmds", dict(MX=40, Depth=3, Wide="TRUE", Big="FALSE", Rand=60, RandLen=5, RunLens=RUNS), 2, 4),
     ("true-size", dict(MX=REAL_MAX, Depth=1, Wide="FALSE", Big="FALSE", Rand=0, RandLen=1, RunLens="{}"), 0, 1),
 ]
 THOROUGH = [
